@@ -328,12 +328,19 @@ static Verdict check_huge(const Fields &f) {
   // composing straight into a small caller buffer (no size query first): every list here is longer than 8 characters,
   // so the call must refuse; the buffer is 8 characters flush against a guard page
   {
-    char *dest = gb().right_chars<char>(8);
-    memset(dest, 0xAA, 8);
-    int cw = -7;
-    rc = uriComposeQueryExA(dest, nodes.data(), 8, &cw, URI_TRUE, nb ? URI_TRUE : URI_FALSE);
-    stats().sub_evaluations++;
-    if (rc == 0) return Verdict::fail("huge list: composing into an 8-character buffer succeeded (worst case " + std::to_string(T) + ")", klass);
+    for (int cap : {8, 64}) {
+      char *dest = gb().right_chars<char>((size_t)cap);
+      memset(dest, 0xAA, (size_t)cap);
+      int cw = -7;
+      rc = uriComposeQueryExA(dest, nodes.data(), cap, &cw, URI_TRUE, nb ? URI_TRUE : URI_FALSE);
+      stats().sub_evaluations++;
+      if (rc == 0) {
+        size_t len = 0;
+        while (len < (size_t)cap && dest[len] != 0) len++;
+        if (len >= (size_t)cap || cw != (int)len + 1) return Verdict::fail("huge list: composing into a " + std::to_string(cap) + "-character buffer reports success without a terminated text inside it", klass);
+        if (T > cap - 1 && T > INT_MAX / 2) return Verdict::fail("huge list: composing into a " + std::to_string(cap) + "-character buffer succeeded (worst case " + std::to_string(T) + ")", klass);
+      }
+    }
   }
   stats().hit(perItemTooBig ? "huge:item_beyond_limit" : T > INT_MAX ? "huge:sum_beyond_INT_MAX" : "huge:fits");
   stats().nontrivial(f.text(), "huge list n=" + std::to_string(n) + " worst-case=" + std::to_string(T));
